@@ -1,5 +1,6 @@
 import GMGModel.Stencil
 import GMGDriver.Util
+import Std.Data.HashMap
 /-! `gmgdriver residual`: the real residual operators (give/take, cache variants, level chains) against `Stencil.take`
 and `Stencil.give` evaluated in exact rationals (C03). -/
 namespace OpsDrv
@@ -50,8 +51,7 @@ structure St where
   worst : Rat := 0            -- max |impl - exact| / S over all nodes
   giveRuns : Nat := 0
   takeRuns : Nat := 0
-  lastKey : String := ""      -- oracle: give vs take, cached vs uncached on identical inputs
-  lastOut : Array Rat := #[]
+  firstOut : Std.HashMap String (Array Rat × String) := {}   -- oracle: give vs take, cached vs uncached on identical inputs
   sample : List String := []
 
 /-- allowance: |impl - exact| ≤ 2^-40 · (sum of magnitudes of all terms) -/
@@ -94,16 +94,19 @@ def residualStep (st : St) (line : String) : IO St := do
     -- implementation oracle: all strategies / cache variants / thread counts on the same inputs agree with each other
     let key := s!"{(kv rest "x").getD ""}|{(kv rest "f").getD ""}|{l.nr}|{l.nt}"
     let mut st := { st with stats := stats, worst := worst, giveRuns := st.giveRuns + (if strat == "give" then 1 else 0), takeRuns := st.takeRuns + (if strat == "take" then 1 else 0) }
-    if key == st.lastKey then
+    let me := s!"{strat} cache={(kv rest "cache").getD ""} threads={(kv rest "threads").getD ""} lvl={(kv rest "lvl").getD ""}"
+    match st.firstOut.get? key with
+    | some (first, who) =>
       let mut okAll := true
       for i in [0:l.nr] do
         for j in [0:l.nt] do
           let s := (mag i j).v
-          if Hex.rabs (out.getD (i * l.nt + j) 0 - st.lastOut.getD (i * l.nt + j) 0) > 2 * tol * s then okAll := false
+          if Hex.rabs (out.getD (i * l.nt + j) 0 - first.getD (i * l.nt + j) 0) > 2 * tol * s then okAll := false
       if !okAll then
-        IO.println s!"ORACLE C03 two evaluations of the residual on the same inputs disagree (strategy/threads/cache): {strat} cache={(kv rest "cache").getD ""} threads={(kv rest "threads").getD ""} nr={l.nr} nt={l.nt} bc={l.bc} geo={l.geo} coef={l.coef} x={(kv rest "x").getD ""} f={(kv rest "f").getD ""}"
+        IO.println s!"ORACLE C03 two evaluations of the residual on the same inputs disagree: [{me}] vs [{who}] nr={l.nr} nt={l.nt} bc={l.bc} geo={l.geo} coef={l.coef} x={(kv rest "x").getD ""} f={(kv rest "f").getD ""}"
         st := { st with oracleFails := st.oracleFails + 1 }
-    return { st with lastKey := key, lastOut := out }
+      return st
+    | none => return { st with firstOut := st.firstOut.insert key (out, me) }
   | ["E"] => return st
   | "seed" :: _ => return st
   | ["end"] => return st
